@@ -38,6 +38,7 @@ Proof.
   - eexists; split; reflexivity.
   - destruct neg; eexists; split; reflexivity.
   - eexists; split; reflexivity.
+  - eexists; split; reflexivity.
 Qed.
 
 Lemma rrank_spec lvl e : efrag lvl e = true -> ref_rank (hdef e) = Some (rrank e).
@@ -132,6 +133,8 @@ Lemma paren_ok_un o x : paren_ok (EUn o x) = true -> paren_ok x = true.
 Proof. cbn [paren_ok]. intros H. apply andb_true_iff in H. apply H. Qed.
 Lemma paren_ok_group x : paren_ok (EGroup x) = true -> paren_ok x = true.
 Proof. cbn [paren_ok]. intros H. apply andb_true_iff in H. apply H. Qed.
+Lemma paren_ok_nested lbl b : paren_ok (ENested lbl b) = true -> paren_ok b = true.
+Proof. cbn [paren_ok]. intros H. apply andb_true_iff in H. apply H. Qed.
 Lemma paren_ok_binary e t l r : as_binary e = Some (t, l, r) -> paren_ok e = true ->
   paren_ok l = true /\ paren_ok r = true.
 Proof.
@@ -171,7 +174,7 @@ Proof.
   { intros y Hy. apply IHn. lia. }
   clear IHn Hn. intros F P q rest T R off Hfit Hstop HC.
   pose proof (rrank_spec lvl e F) as Hrk.
-  destruct (shape_of lvl e F) as [El Hi Hr _|o x -> Ho|o x -> Ho|x ->|l r ->|t l r Hb].
+  destruct (shape_of lvl e F) as [El Hi Hr _|o x -> Ho|o x -> Ho|x ->|lbl b ->|l r ->|t l r Hb].
   - (* atom *)
     rewrite Hi. cbn [app]. apply C_val. rewrite Hr in HC. exact HC.
   - (* prefix operator: the operand is built under the operator's own rank *)
@@ -207,6 +210,14 @@ Proof.
     eapply C_open; [|exact HC].
     apply (IH x); [cbn [size]; lia|exact F|exact Px| | |].
     + intros _. eapply inside_INF; [apply (rrank_spec lvl x F)|apply (rrank_lt_INF lvl x F)].
+    + exact I.
+    + apply C_close.
+  - (* nested expression: the braces are brackets *)
+    cbn [efrag] in F. apply andb_true_iff in F. destruct F as [_ F]. pose proof (paren_ok_nested _ _ P) as Px.
+    cbn [eitems rtree_of_expr] in *. cbn [app]. rewrite <- app_assoc. cbn [app].
+    eapply C_open; [|exact HC].
+    apply (IH b); [cbn [size]; lia|exact F|exact Px| | |].
+    + intros _. eapply inside_INF; [apply (rrank_spec lvl b F)|apply (rrank_lt_INF lvl b F)].
     + exact I.
     + apply C_close.
   - (* space list *)
